@@ -125,10 +125,17 @@ func newEnv(c *Case, use mask) *env {
 	e.a = mkInts(c.A, c.SpareA, -1000)
 	e.b = mkInts(c.B, c.SpareB, -2000)
 	if use&sP != 0 {
-		e.p = make([][]int, 2, 2+c.SpareA)
+		// the list handed over with the spread operator: a, b and two slices of its own (a long one before a short one,
+		// so that the tail of the list is not ordered by length), then sentinels in the spare capacity
+		e.p = make([][]int, 4, 4+c.SpareA)
 		e.p[0], e.p[1] = e.a, e.b
+		long := make([]int, len(c.A)+2)
+		for i := range long {
+			long[i] = i % 3
+		}
+		e.p[2], e.p[3] = long, []int{1}
 		full := e.p[:cap(e.p)]
-		for i := 2; i < len(full); i++ {
+		for i := 4; i < len(full); i++ {
 			full[i] = []int{-3000 - i}
 		}
 	}
